@@ -314,6 +314,69 @@ def run(ctx):
             desc = "offset %s length %s" % (off, ln)
         r.check(okk, "BuildKey::%s|offsets" % nm, "", "simple key name read with %s" % desc, f)
 
+    rw = rep.rule("R-CODEC-WIDTH", "no coder narrows what it codes: the integer type handed to write()/read() is at least as wide as the member it stands for "
+                                   "(an enumeration may be narrowed to a type that holds all its enumerators); a count written through a narrower local loses "
+                                   "its high bits on both sides alike, so encoder and decoder still agree", floor=6)
+    WIDTH = {"bool": 1, "char": 1, "signed char": 1, "unsigned char": 1, "short": 2, "unsigned short": 2, "int": 4, "unsigned int": 4, "long": 8, "unsigned long": 8,
+             "long long": 8, "unsigned long long": 8, "uint8_t": 1, "uint16_t": 2, "uint32_t": 4, "uint64_t": 8, "int8_t": 1, "int16_t": 2, "int32_t": 4, "int64_t": 8, "size_t": 8}
+
+    def width(t):
+        t = (t or "").replace("const ", "").replace("&", "").replace("volatile ", "").strip()
+        return WIDTH.get(t)
+
+    def enum_fits(t, w):
+        t = (t or "").replace("const ", "").replace("&", "").strip()
+        for nm, e in prog.enums.items():
+            if nm == t or nm.endswith("::" + t.split("::")[-1]) and t.split("::")[-1] == nm.split("::")[-1]:
+                vals = [x["v"] for x in e["enumerators"]]
+                return bool(vals) and min(vals) >= 0 and max(vals) < 2 ** (8 * w)
+        return None
+    coders = [prog.fn("buildsystem::BuildValue::toData")] + dec + [senc] + sdec + [d_[k_] for d_ in traits_pairs(prog).values() for k_ in ("encode", "decode") if k_ in d_]
+    n_w = 0
+    for f in coders:
+        env = {}
+        for d_ in f.nodes:
+            if d_.get("k") == "decl":
+                for v in d_.get("vars", []):
+                    env[v.get("did")] = v
+        for c in f.calls():
+            nm = (c.get("fn") or "").split("::")[-1]
+            if c.get("k") != "call" or nm not in ("write", "read") or "obj" not in c or strip_casts(c.child("obj")).get("n") not in CODERS:
+                continue
+            a = arg_nodes(c)[0]
+            a0 = strip_casts(a)
+            tw = width(f.db_types[c["pt"][0]]) if c.get("pt") else None
+            if tw is None or a0 is None:
+                continue
+            # what the coded local stands for: writer -> its initialiser; reader -> the member it is assigned to afterwards
+            srcs = []
+            if a0.get("k") == "ref" and a0.get("did") in env:
+                v = env[a0["did"]]
+                if nm == "write" and "init" in v:
+                    srcs = [x for x in f.nodes[v["init"]].walk() if x.get("k") == "member" and x.get("qn")]
+                if nm == "read":
+                    for n2 in f.nodes:
+                        if n2.get("k") == "bin" and n2["op"] == "=" and any(y.get("k") == "ref" and y.get("did") == a0["did"] for y in n2.child("r").walk()):
+                            srcs += [x for x in n2.child("l").walk() if x.get("k") == "member" and x.get("qn")]
+            elif a0.get("k") == "member":
+                srcs = [a0]
+            for src in srcs:
+                st = src.ctype()
+                sw = width(st)
+                n_w += 1
+                site = "%s|%s %s as %s" % (f.name.split("::")[-1] if f.cls else f.name, nm, src.get("n"), (f.db_types[c["pt"][0]]).replace("const ", "").replace(" &", ""))
+                if sw is None:
+                    fits = enum_fits(st, tw)
+                    if fits is None:
+                        n_w -= 1
+                        continue
+                    rw.check(fits, site, "enum fits", "enumeration %s does not fit the %d-byte type it is coded as" % (st, tw), f, c)
+                else:
+                    rw.check(sw <= tw, site, "%d <= %d bytes" % (sw, tw), "member %s (%s, %d bytes) is coded as a %d-byte integer: values of 2^%d and above are truncated on both sides" % (
+                        src.get("n"), st, sw, tw, 8 * tw), f, c)
+    if n_w < 6:
+        raise AnalysisBroken("R-CODEC-WIDTH: only %d coded integer members found" % n_w)
+
     rn = rep.rule("R-CODEC-NUL-SAFE", "inside the key / value / string-list / binary-coding classes no byte string is rebuilt from a bare `const char*` "
                                       "(a C-string constructor, assignment or append stops at the first NUL byte): the only C-string sources are string literals", floor=1)
     STRY = ("basic_string", "StringRef", "KeyType", "SmallString", "Twine", "SmallVector")
@@ -366,6 +429,13 @@ def prog_type(f, call):
 
 
 VARIANTS = [
+    dict(name="output-count-coded-in-one-byte", file="include/llbuild/BuildSystem/BuildValue.h",
+         edits=[("    coder.read(numOutputInfos);\n", "    uint8_t count;\n    coder.read(count);\n    numOutputInfos = count;\n"),
+                ("    coder.write(numOutputInfos);\n", "    uint8_t count = uint8_t(numOutputInfos);\n    coder.write(count);\n")],
+         expect=("R-CODEC-WIDTH", "numOutputInfos")),
+    dict(name="file-size-coded-in-32-bits", file="include/llbuild/Basic/FileInfo.h",
+         edits=[("    coder.write(value.size);\n", "    uint32_t sz = uint32_t(value.size);\n    coder.write(sz);\n"), ("    coder.read(value.size);\n", "    uint32_t sz;\n    coder.read(sz);\n    value.size = sz;\n")],
+         expect=("R-CODEC-WIDTH", "size")),
     dict(name="fileinfo-missing-sentinel-compact-encoding", file="include/llbuild/Basic/FileInfo.h",
          edits=[("    coder.write(value.device);\n", "    bool isMissing = value.isMissing();\n    coder.write(isMissing);\n    if (isMissing)\n      return;\n    coder.write(value.device);\n"),
                 ("    coder.read(value.device);\n", "    bool isMissing;\n    coder.read(isMissing);\n    if (isMissing) {\n      value = FileInfo{};\n      return;\n    }\n    coder.read(value.device);\n")],
